@@ -283,6 +283,34 @@ Events15 == << [ev |-> EmptyObj, meta |-> EmptyObj],
                [ev |-> Obj([a |-> Arr(<<IntV(1), IntV(2), IntV(3)>>)]), meta |-> Obj([m |-> Str("s")])],
                [ev |-> Obj([a |-> Arr(<<>>)]), meta |-> EmptyObj] >>
 
+(* ---------- C34: discarded statements, some hiding side effects ---------- *)
+SideG == Group(Asg(TExt(pa), Lit(IntV(1))))
+SideV == Group(Asg(TVar("y"), Lit(IntV(2))))
+SideB == Block(<<Asg(TExt(pa), Lit(IntV(1))), Lit(Str("x"))>>)
+SideD == Block(<<Del(TExt(pa)), Lit(Str("x"))>>)
+Discards ==
+  {Lit(IntV(1)), Lit(Str("s")), Lit(Null), Var("x"), Q(pa), QV("x", pa),
+   ObjN(<<"k">>, <<Lit(IntV(1))>>), ObjN(<<"k">>, <<SideG>>), ObjN(<<"j", "k">>, <<Lit(IntV(1)), SideV>>), ObjN(<<>>, <<>>),
+   ArrN(<<Lit(IntV(1))>>), ArrN(<<SideG>>), ArrN(<<Lit(IntV(0)), SideV>>),
+   Call("upcase", <<Lit(Str("s"))>>), Call("upcase", <<SideB>>), Call("upcase", <<SideD>>),
+   Call("to_string", <<SideG>>), Call("to_string", <<SideV>>), Call("length", <<ArrN(<<SideG>>)>>),
+   Call("to_string", <<Del(TExt(pa))>>),
+   Op("add", Lit(IntV(1)), SideG), Op("add", Lit(IntV(1)), Lit(IntV(2))), Op("eq", SideV, Lit(IntV(2))),
+   Op("or", Q(pa), SideG), Op("err", Call("to_int", <<Q(pa)>>), SideG), Op("err", Call("to_int", <<Q(pa)>>), Lit(IntV(0))),
+   Op("err", Call("to_int", <<SideB>>), Lit(IntV(0))),
+   Not(Group(Op("eq", SideG, Lit(IntV(1))))), Not(Lit(Bool(TRUE))),
+   Group(Lit(IntV(1))), SideG, Block(<<Lit(IntV(1))>>), SideB,
+   If(<<Lit(Bool(TRUE))>>, <<Lit(IntV(1))>>), If(<<Lit(Bool(TRUE))>>, <<SideG>>),
+   IfElse(<<Op("eq", SideG, Lit(IntV(1)))>>, <<Lit(IntV(1))>>, <<Lit(IntV(2))>>),
+   Del(TExt(pa)), Exists(TExt(pa)),
+   Iter("for_each", ObjN(<<"p">>, <<Lit(IntV(1))>>), <<"k", "v">>, <<Asg(TExt(pc), Var("v"))>>),
+   Iter("map_values", ObjN(<<"p">>, <<Lit(IntV(1))>>), <<"v">>, <<Asg(TExt(pc), Var("v"))>>),
+   Iter("map_values", ObjN(<<"p">>, <<Lit(IntV(1))>>), <<"v">>, <<Lit(IntV(0))>>),
+   Iter("filter", ArrN(<<Lit(IntV(1))>>), <<"k", "v">>, <<Asg(TExt(pc), Var("v")), Lit(Bool(TRUE))>>)}
+Progs_C34 == {Prelude \o <<d>> \o Observe : d \in Discards}
+             \cup {Prelude \o <<Block(<<d, Lit(IntV(0))>>)>> \o Observe : d \in Discards}
+             \cup (IF Thorough THEN {Prelude \o <<d1, d2>> \o Observe : d1 \in Discards, d2 \in Discards} ELSE {})
+
 (* ---------- selection ---------- *)
 Progs == CASE Focus = "C09" -> Progs_C09
            [] Focus = "C08" -> Progs_C08
@@ -291,6 +319,7 @@ Progs == CASE Focus = "C09" -> Progs_C09
            [] Focus \in {"C01", "C02", "C12", "C16"} -> Progs_C01
            [] Focus = "C17" -> Progs_C09 \cup Progs_C08
            [] Focus = "C15" -> Progs_C15
+           [] Focus = "C34" -> Progs_C34
 
 \* events the harness runs every program on
 Events == << [ev |-> EmptyObj, meta |-> EmptyObj],
